@@ -266,6 +266,50 @@ func evalStmt(s Stmt, args Val) bool {
 	return false
 }
 
+// definiteStmt reports whether the classical reading of s on args is beyond
+// dispute: it is not when a definitely absent path occurs underneath a not or
+// an or (there the four-valued "missing data" rules of the policy language
+// decide, which belong to C11 and are not claimed). The oracles give no
+// verdict on the policy clause for such statements; this situation arises only
+// through argument hooks that remove an argument and through minimiser
+// candidates, never from the generator's own statements.
+func definiteStmt(s Stmt, args Val, underNotOr bool) bool {
+	switch s.Op {
+	case "==", "<", "<=", ">", ">=", "like":
+		_, ok := resolveSel(s.Sel, args)
+		return ok || !underNotOr
+	case "not", "or":
+		for _, k := range s.Kids {
+			if !definiteStmt(k, args, true) {
+				return false
+			}
+		}
+		return true
+	case "and":
+		for _, k := range s.Kids {
+			if !definiteStmt(k, args, underNotOr) {
+				return false
+			}
+		}
+		return true
+	case "all", "any":
+		v, ok := resolveSel(s.Sel, args)
+		if !ok {
+			return !underNotOr
+		}
+		if v.K != "list" {
+			return true
+		}
+		for _, e := range v.L {
+			if !definiteStmt(s.Kids[0], e, underNotOr) {
+				return false
+			}
+		}
+		return true
+	}
+	return false
+}
+
 func stmtKinds(ss []Stmt, set map[string]bool) {
 	for _, s := range ss {
 		set[s.Op] = true
@@ -361,6 +405,7 @@ type InvSpec struct {
 func (s InvSpec) argsVal() Val { return Val{K: "map", M: s.Args} }
 
 type chainVerdict struct {
+	Qdefinite     bool
 	P, K, Q       bool
 	Wsound        bool // T not strictly outside any window
 	Wstrict       bool // T strictly inside every window
@@ -406,7 +451,7 @@ func windowModel(tNS int64, nbf, exp *int64) (sound, strict bool) {
 // decide evaluates the four clauses on exactly the delegations the loader
 // returned during the call (dlgs[i] == nil: proof i was not returned).
 func decide(inv InvSpec, dlgs []*DlgSpec, args Val, tNS int64) chainVerdict {
-	v := chainVerdict{P: true, K: true, Q: true}
+	v := chainVerdict{P: true, K: true, Q: true, Qdefinite: true}
 	fail := func(flag *bool, why *string, msg string) {
 		if *flag {
 			*flag = false
@@ -456,6 +501,9 @@ func decide(inv InvSpec, dlgs []*DlgSpec, args Val, tNS int64) chainVerdict {
 		}
 		cur = d.Cmd
 		for j, s := range d.Pol {
+			if !definiteStmt(s, args, false) {
+				v.Qdefinite = false
+			}
 			if !evalStmt(s, args) {
 				fail(&v.Q, &v.whyQ, fmt.Sprintf("link %d statement %d false", i, j))
 			}
